@@ -202,7 +202,7 @@ func runDispose(r Round) *outcome {
 		o.failf("C16/dispose/errors-miscounted", "GetErrors has %d entries, %d handlers failed once each", len(d.GetErrors()), want)
 	}
 	if l := settle(disposePrefixes, base, 2*time.Second); l != nil {
-		o.failf("C16/dispose/goroutine-leak/"+leakKeyPart(l[0]), "goroutines remain after Close: %v", l)
+		o.failf("C16/dispose/goroutine-leak/"+leakKeyPart(l[0]), "goroutines remain after Close: %s", leakMsg(l))
 	}
 	return o
 }
